@@ -51,7 +51,17 @@ func fieldEvents(fn *ssa.Function, targets map[ssa.Value]bool) map[string][]fiel
 	out := map[string][]fieldEvent{}
 	isTargetField := func(v ssa.Value) (string, bool) {
 		fa, ok := v.(*ssa.FieldAddr)
-		if !ok || !targets[fa.X] {
+		if !ok {
+			return "", false
+		}
+		if !targets[fa.X] {
+			// a field of a struct that the target holds by value (state grouped into an
+			// embedded / named sub-struct): it counts as a field of the target
+			if outer, ok := fa.X.(*ssa.FieldAddr); ok && targets[outer.X] {
+				if _, f := fieldAddrInfo(fa); f != nil {
+					return f.Name(), true
+				}
+			}
 			return "", false
 		}
 		_, f := fieldAddrInfo(fa)
@@ -59,6 +69,22 @@ func fieldEvents(fn *ssa.Function, targets map[ssa.Value]bool) map[string][]fiel
 			return "", false
 		}
 		return f.Name(), true
+	}
+	// subStructOf: v is the address of a struct the target holds by value
+	subStructOf := func(v ssa.Value) (string, *types.Struct, bool) {
+		fa, ok := v.(*ssa.FieldAddr)
+		if !ok || !targets[fa.X] {
+			return "", nil, false
+		}
+		_, f := fieldAddrInfo(fa)
+		if f == nil {
+			return "", nil, false
+		}
+		st, ok := f.Type().Underlying().(*types.Struct)
+		if !ok {
+			return "", nil, false
+		}
+		return f.Name(), st, true
 	}
 	for _, b := range fn.Blocks {
 		for _, ins := range b.Instrs {
@@ -82,7 +108,30 @@ func fieldEvents(fn *ssa.Function, targets map[ssa.Value]bool) map[string][]fiel
 				// re-establishes on every one of its paths counts at the call
 				if sc != nil && sc.Pkg == fn.Pkg && sc.Blocks != nil && !sanitiserNames[sc.Name()] && fieldEventsDepth < 2 {
 					for ai, a := range cc.Args {
-						if !targets[a] || ai >= len(sc.Params) {
+						if ai >= len(sc.Params) {
+							continue
+						}
+						if sub, st, isSub := subStructOf(a); isSub {
+							// a method of the sub-struct: what it establishes counts under the same
+							// names, and the sub-struct itself once all of its fields are covered
+							est := mustEstablish(sc, ai)
+							have := map[string]bool{}
+							for _, name := range est {
+								have[name] = true
+								out[name] = append(out[name], fieldEvent{"store", ins, nil})
+							}
+							all := st.NumFields() > 0
+							for i := 0; i < st.NumFields(); i++ {
+								if !have[st.Field(i).Name()] {
+									all = false
+								}
+							}
+							if all {
+								out[sub] = append(out[sub], fieldEvent{"store", ins, nil})
+							}
+							continue
+						}
+						if !targets[a] {
 							continue
 						}
 						for _, name := range mustEstablish(sc, ai) {
@@ -303,6 +352,22 @@ func init() {
 				sp := specs[si]
 				fn := c.MustFn(sp.fn)
 				st := c.StructOf(sp.typ)
+				// the object being re-initialised is found by its type (a changed parameter
+				// list must not move it); the recorded index decides between several
+				var cands []int
+				for pi, prm := range fn.Params {
+					if n := namedOf(prm.Type()); n != nil && n.Obj().Name() == sp.typ {
+						cands = append(cands, pi)
+					}
+				}
+				switch {
+				case len(cands) == 1:
+					sp.target = cands[0]
+				case sp.target < len(fn.Params):
+				default:
+					r.undecided(sp.fn+"/target", sp.fn, c.pos(fn.Pos()), "cannot tell which parameter of "+sp.fn+" is the "+sp.typ+" being re-initialised")
+					continue
+				}
 				targets := targetsOf(fn, sp.target)
 				ev := fieldEvents(fn, targets)
 				switch sp.mode {
@@ -345,6 +410,52 @@ func init() {
 										fn, targets, clear = sc, t2, cl
 										ev = fieldEvents(fn, targets)
 										break search
+									}
+								}
+							}
+						}
+					}
+					if clear == nil {
+						// `kept := T{restored fields...}; *rv = kept`: the whole object is overwritten
+						// by a local literal - the literal is the cleared object, its fields the restores
+						overwrite := func(f *ssa.Function, tg map[ssa.Value]bool) (*ssa.Store, *ssa.Alloc) {
+							for _, b := range f.Blocks {
+								for _, ins := range b.Instrs {
+									if s, ok := ins.(*ssa.Store); ok && tg[s.Addr] {
+										if ld, ok := s.Val.(*ssa.UnOp); ok && ld.Op == token.MUL {
+											if al, ok := ld.X.(*ssa.Alloc); ok && !al.Heap {
+												return s, al
+											}
+										}
+									}
+								}
+							}
+							return nil, nil
+						}
+						if st0, al := overwrite(fn, targets); st0 != nil {
+							clear, targets = st0, map[ssa.Value]bool{al: true}
+							ev = fieldEvents(fn, targets)
+						} else {
+						outer:
+							for _, b := range fn.Blocks {
+								for _, ins := range b.Instrs {
+									ci, ok := ins.(ssa.CallInstruction)
+									if !ok {
+										continue
+									}
+									sc := ci.Common().StaticCallee()
+									if sc == nil || !c.inRoot(sc) || sc.Blocks == nil {
+										continue
+									}
+									for ai, a := range ci.Common().Args {
+										if !targets[a] || ai >= len(sc.Params) {
+											continue
+										}
+										if st0, al := overwrite(sc, targetsOf(sc, ai)); st0 != nil {
+											fn, clear, targets = sc, st0, map[ssa.Value]bool{al: true}
+											ev = fieldEvents(fn, targets)
+											break outer
+										}
 									}
 								}
 							}
@@ -551,6 +662,109 @@ func init() {
 					}
 					if setsSeg && clearsMap {
 						okGuard = true
+					}
+				}
+			}
+			if !okGuard {
+				// the comparison and the reset may sit in helper methods of the visit state
+				// (matches(s) / rebind(s)): boolean execution with the atom "state.segment ==
+				// a segment"; when it is false every path to a return that may report success
+				// passes a block that records the segment and drops the cloned readers
+				rebinds := func(f *ssa.Function) bool { // f stores .segment and nil into .dvrs on its only path
+					if f == nil || f.Blocks == nil || len(f.Blocks) != 1 {
+						return false
+					}
+					seg, mp := false, false
+					for _, ins := range f.Blocks[0].Instrs {
+						if st, ok := ins.(*ssa.Store); ok {
+							ap := accessPath(st.Addr)
+							if strings.HasSuffix(ap, ".segment") {
+								seg = true
+							}
+							if strings.HasSuffix(ap, ".dvrs") && isNilConst(st.Val) {
+								mp = true
+							}
+						}
+					}
+					return seg && mp
+				}
+				resetBlocks := map[*ssa.BasicBlock]bool{}
+				for _, b := range fn.Blocks {
+					seg, mp := false, false
+					for _, ins := range b.Instrs {
+						switch x := ins.(type) {
+						case *ssa.Store:
+							ap := accessPath(x.Addr)
+							if strings.HasSuffix(ap, ".segment") {
+								seg = true
+							}
+							if strings.HasSuffix(ap, ".dvrs") && isNilConst(x.Val) {
+								mp = true
+							}
+						case *ssa.Call:
+							if rebinds(x.Call.StaticCallee()) {
+								seg, mp = true, true
+							}
+						}
+					}
+					if seg && mp {
+						resetBlocks[b] = true
+					}
+				}
+				atoms := func(v ssa.Value) (int, bool, bool) {
+					bo, ok := v.(*ssa.BinOp)
+					if !ok || (bo.Op != token.EQL && bo.Op != token.NEQ) {
+						return 0, false, false
+					}
+					for _, side := range []ssa.Value{bo.X, bo.Y} {
+						if ld, ok := side.(*ssa.UnOp); ok && ld.Op == token.MUL && strings.HasSuffix(accessPath(ld.X), ".segment") {
+							return 0, bo.Op == token.NEQ, true
+						}
+					}
+					return 0, false, false
+				}
+				if len(resetBlocks) > 0 {
+					be := &boolExec{fn: fn, atoms: atoms, n: 1, inline: true}
+					okGuard = true
+					sawDiffer := false
+					for _, b := range fn.Blocks {
+						ret, isRet := b.Instrs[len(b.Instrs)-1].(*ssa.Return)
+						if !isRet {
+							continue
+						}
+						if n := len(ret.Results); n > 0 && isErrorType(ret.Results[n-1].Type()) && !isNilConst(resolveLoad(ret.Results[n-1])) {
+							continue
+						}
+						// the state handed in was not nil: start after the nil test is not modelled; a fresh
+						// state passes no reset block, which is right (nothing to forget)
+						if be.pathAvoiding(fn.Blocks[0], b, resetBlocks, 0) {
+							// reachable without a reset while the segments differ - unless that is the
+							// "fresh state" path, on which the state is created in the function
+							fresh := false
+							for _, fb := range fn.Blocks {
+								for _, ins := range fb.Instrs {
+									if al, ok := ins.(*ssa.Alloc); ok && al.Heap && strings.Contains(al.Type().String(), "docVisitState") {
+										fresh = true
+										avoid := map[*ssa.BasicBlock]bool{fb: true}
+										for k := range resetBlocks {
+											avoid[k] = true
+										}
+										if be.pathAvoiding(fn.Blocks[0], b, avoid, 0) {
+											okGuard = false
+										}
+									}
+								}
+							}
+							if !fresh {
+								okGuard = false
+							}
+						}
+						if be.reachableUnder(b)[0] {
+							sawDiffer = true
+						}
+					}
+					if !sawDiffer {
+						okGuard = false
 					}
 				}
 			}
@@ -1300,6 +1514,35 @@ func earlyEmptyReader(b *ssa.BasicBlock) bool {
 		if call, ok := ins.(*ssa.Call); ok {
 			if sc := call.Call.StaticCallee(); sc != nil && sc.Name() == "newMemUvarintReader" {
 				return true
+			}
+			// a helper that points the reader at the bytes it is given, called with none
+			if sc := call.Call.StaticCallee(); sc != nil && sc.Blocks != nil && sc.Pkg == b.Parent().Pkg {
+				none := false
+				for _, a := range call.Call.Args {
+					if isNilConst(a) {
+						none = true
+					}
+				}
+				if len(sc.Blocks) == 1 {
+					for _, hi := range sc.Blocks[0].Instrs {
+						if hc, ok := hi.(*ssa.Call); ok {
+							if h := hc.Call.StaticCallee(); h != nil && h.Name() == "newMemUvarintReader" {
+								return true
+							}
+						}
+					}
+				}
+				if none {
+					for _, hb := range sc.Blocks {
+						for _, hi := range hb.Instrs {
+							if hc, ok := hi.(*ssa.Call); ok {
+								if h := hc.Call.StaticCallee(); h != nil && (h.Name() == "newMemUvarintReader" || h.Name() == "Reset") {
+									return true
+								}
+							}
+						}
+					}
+				}
 			}
 		}
 	}
